@@ -10,6 +10,11 @@ def check(rep):
     LR.rule_trivia_silent(ctx)
     LR.rule_trivia_shield(ctx)
     LR.rule_trivia_munch(ctx)
+    from . import evalrules as ER
+    # a parse must start in the main lexer state: a lexer object kept between parses stays inside an unterminated comment
+    ER.rule_fresh_per_parse(ctx, rid="C08.STARTS-IN-MAIN-STATE", kinds=("Lexer",))
+    # a layout-only edit is still a different text for recompile(): the skip guard must compare the exact text
+    ER.rule_skip_guard(ctx, rid="C08.SKIP-EXACT")
     # the comment state must be total: otherwise its error() (sly's default raises) is reachable
     for state, lc in ctx.lexers.items():
         if state == ctx.main.name:
